@@ -362,6 +362,22 @@ func genC19(g *G) {
 		ref := refText(jhOpts(slog.Level(hl), mode), chainA, mkRecord(slog.Level(rl), msg, decodeAttrs(recAttrs)))
 		g.Emit("jh", I(hl), I(rl), HS(msg), recAttrs, chainS, HS(ref))
 	}
+	// long lines (around 32 KiB and 64 KiB) through the root handler and through derived ones
+	for _, n := range []int{32000, 32768, 33000, 40000, 66000} {
+		for _, chain := range []string{"", HS("k") + "=i1", HS("k") + "=i1|" + HS("q") + "=s" + HS("v"), ".|" + HS("a") + "=b1"} {
+			msg := strings.Repeat("m", n)
+			var chainA [][]slog.Attr
+			for _, c := range SplitList(chain, "|") {
+				if c == "." {
+					chainA = append(chainA, nil)
+				} else {
+					chainA = append(chainA, decodeAttrs(c))
+				}
+			}
+			ref := refText(jhOpts(slog.LevelInfo, 0), chainA, mkRecord(slog.LevelInfo, msg, nil))
+			g.Emit("jh", "0", "0", HS(msg), "", chain, HS(ref))
+		}
+	}
 	// derivation trees: depth <= 5, fan-out <= 3, 1..3 attributes per edge (spare capacity arises from depth 2)
 	next := 1
 	for i := 0; i < g.N(6000, 150000); i++ {
